@@ -127,6 +127,9 @@ type Engine struct {
 	Execute func(f func())
 	mux     sync.Mutex
 
+	// set by Stop under mux: no connection is added any more.
+	shutdown bool
+
 	isOneshot bool
 
 	wgConn sync.WaitGroup
@@ -203,6 +206,7 @@ func (g *Engine) Stop() {
 	}
 
 	g.mux.Lock()
+	g.shutdown = true
 	conns := g.connsStd
 	g.connsStd = map[*Conn]struct{}{}
 	connsUnix := g.connsUnix
